@@ -50,17 +50,21 @@ package netstate
 //@   opt frame [C19]
 
 // Deferred clean-up of Watch: closes every registered channel exactly once.
+// watchCleaned records that it ran: Watch must run it on every return path.
+//@ ghost var watchCleaned Bool
 //@ func (*Watcher).Watch$1
 //@   opt guarded m mu [C19]
 //@   opt capture CAP
 //@   requires CAP [C19]: w != nil
 //@   requires P1: wf(w.m) && lockGet(ghost.lockDepth, fieldaddr(w, "mu")) == 0 && forall(c, "Int", !setHas(ghost.closed, c))
-//@   assigns ghost.lockDepth, ghost.closed
+//@   assigns ghost.lockDepth, ghost.closed, ghost.watchCleaned
+//@   at return all: ghost.watchCleaned = true
 //@   loop 1 invariant W1 [C19]: lockGet(ghost.lockDepth, fieldaddr(w, "mu")) == 1 && wf(w.m) && rangemap(1) == w.m && forall(c, "Int", setHas(ghost.closed, c) ==> setHas(visited(1), ghost.chIface[c]))
 //@   loop 2 invariant W2 [C19]: lockGet(ghost.lockDepth, fieldaddr(w, "mu")) == 1 && wf(w.m) && rangemap(1) == w.m && has(w.m, rangekey(1)) && rangemap(2) == w.m[rangekey(1)] && setHas(visited(1), rangekey(1)) && forall(c, "Int", setHas(ghost.closed, c) ==> (setHas(visited(1), ghost.chIface[c]) && (ghost.chIface[c] == rangekey(1) ==> setHas(visited(2), ghost.chMask[c]))))
 //@   loop 3 invariant W3 [C19]: 0 <= rangeindex + 1 && rangeindex + 1 <= len(vv) && lockGet(ghost.lockDepth, fieldaddr(w, "mu")) == 1 && wf(w.m) && rangemap(1) == w.m && has(w.m, rangekey(1)) && rangemap(2) == w.m[rangekey(1)] && has(rangemap(2), rangekey(2)) && vv == rangemap(2)[rangekey(2)] && setHas(visited(1), rangekey(1)) && setHas(visited(2), rangekey(2)) && forall(c, "Int", setHas(ghost.closed, c) ==> (setHas(visited(1), ghost.chIface[c]) && (ghost.chIface[c] == rangekey(1) ==> (setHas(visited(2), ghost.chMask[c]) && (ghost.chMask[c] == rangekey(2) ==> ghost.chIdx[c] <= rangeindex)))))
 //@   at close ch(c): assert C1 [C19]: !setHas(ghost.closed, ch) ; ghost.closed = setAdd(ghost.closed, ch)
 //@   ensures E1 [C19]: lockGet(ghost.lockDepth, fieldaddr(w, "mu")) == 0
+//@   ensures E2 [C19]: ghost.watchCleaned
 //@   opt safety [C19]
 //@   opt frame [C19]
 
@@ -72,12 +76,13 @@ package netstate
 
 //@ funcfield netstate.Watcher.watch(wctx, wnotify) (err)
 //@   assigns everything
-//@   opt preserves ghost.lockDepth, ghost.closed, ghost.chIface, ghost.chMask, ghost.chIdx, ghost.mapIface, heap(netstate.Watcher), key(MD_Int_Int), key(MV_Int_Int), key(MD_Int_Slice), key(MV_Int_Slice), key(M_chan___netstate.Change)
+//@   opt preserves ghost.lockDepth, ghost.closed, ghost.watchCleaned, ghost.chIface, ghost.chMask, ghost.chIdx, ghost.mapIface, heap(netstate.Watcher), key(MD_Int_Int), key(MV_Int_Int), key(MD_Int_Slice), key(MV_Int_Slice), key(M_chan___netstate.Change)
 
 // Watch: single use (a second call panics by design, so "first call" is the
 // precondition); the deferred clean-up closes the channels on every return.
 //@ func (*Watcher).Watch
 //@   requires P1 [C19]: w.watching != nil && star(w.watching) == 0 && w.watch != nil
-//@   requires P2: wf(w.m) && lockGet(ghost.lockDepth, fieldaddr(w, "mu")) == 0 && forall(c, "Int", !setHas(ghost.closed, c))
+//@   requires P2: wf(w.m) && lockGet(ghost.lockDepth, fieldaddr(w, "mu")) == 0 && forall(c, "Int", !setHas(ghost.closed, c)) && !ghost.watchCleaned
 //@   assigns everything
+//@   ensures E1 [C19]: ghost.watchCleaned
 //@   opt safety [C19]
